@@ -242,9 +242,9 @@ func (xr *Reader) Seek(offset int64, whence int) (int64, error) {
 
 	// As an optimization if the new position is within the current chunk,
 	// then just adjust the discard value.
-	discard := pos - xr.offset
+	discard := pos - xr.offset + xr.discard // Include any pending discard
 	remain := xr.chk.rsize - xr.zr.OutputOffset
-	if discard > 0 && remain > 0 && discard < remain {
+	if pos > xr.offset && remain > 0 && discard < remain {
 		xr.offset, xr.discard = pos, discard
 		return pos, nil
 	}
